@@ -1,4 +1,7 @@
 import EgVerif.Proofs.Retry
+import EgVerif.Model.CircuitBreaker
+import Mathlib.Tactic.FieldSimp
+import Mathlib.Tactic.Positivity
 import EgVerif.Gen.FactsC10IR
 import EgVerif.Gen.FactsC10IRp
 /-!
@@ -460,5 +463,87 @@ theorem wrapLoopG_callCount {F : Type} (A : FloatOps F) (h : Nat → Option Nat 
           have := ih (k + 1) (nextBaseG A expo base) (some e, r)
           simp only [hk, Bool.false_eq_true, if_false, callCount]
           omega
+
+/-! ### audit round (items 16): the breaker layer is C08's `wrap`; the judge's `backoffLower` is `⌊base·(1−f)⌋` -/
+
+/-- what C10 counts of a trace of C08's `circuitBreakerWrapper.Wrap` model: acquires, recorded flags, handler runs -/
+def cbView (evs : List CircuitBreaker.Ev) : Nat × List Bool × Nat :=
+  (evs.count .acquire, evs.filterMap (fun e => match e with | .record b => some b | _ => none), evs.count .handler)
+
+/-- the outcome C08's wrapper sees when the wrapped (possibly retried) handler returned `err` -/
+def outcomeOf (err : Option HErr) : CircuitBreaker.Outcome := if err.isSome then .err else .ok
+
+/-- **The breaker layer of the composed handler is C08's `Wrap`** (whose model `CircuitBreaker.wrap` C08 ties
+to the regenerated `wrapIR`): wrapping any inner handler adds exactly the acquires / records of one `wrap`
+call around one run of the inner handler, and the inner handler runs iff `wrap` invokes it. -/
+theorem runHF_cb_is_wrap (fc : List Nat) (env : Env) (permitted : Bool) (inner : HF) :
+    let R := runHF fc env permitted (.cb inner)
+    let I := runHF fc env permitted inner
+    let W := cbView (CircuitBreaker.wrap permitted (outcomeOf I.err)).1
+    R.acq = (if permitted then I.acq else 0) + W.1 ∧
+    R.recs = (if permitted then I.recs else []) ++ W.2.1 ∧
+    R.events = (if W.2.2 = 1 then I.events else []) ∧
+    (permitted = false → R.err = some .shortCircuited) ∧ (permitted = true → R.err = I.err) := by
+  cases permitted with
+  | false => simp [runHF, cbView, CircuitBreaker.wrap]
+  | true =>
+    simp only [runHF, Bool.not_true, Bool.false_eq_true, if_false, if_true, outcomeOf]
+    by_cases h : (runHF fc env true inner).err.isSome = true
+    · simp [cbView, CircuitBreaker.wrap, h]
+    · simp only [Bool.not_eq_true] at h
+      simp [cbView, CircuitBreaker.wrap, h]
+
+theorem baseQ_eq (p : RetryPolicy) (k : Nat) : baseQ p k = (baseNum p k : Rat) / (baseDen p k : Rat) := by
+  unfold baseQ baseNum baseDen
+  cases p.exponential
+  · simp
+  · simp only [if_true]
+    push_cast
+    rw [div_pow]
+    ring
+
+/-- the floor of a fraction of naturals is their natural quotient -/
+theorem floor_natCast_div (n d : Nat) (hd : 0 < d) : ((n : Rat) / (d : Rat)).floor = ((n / d : Nat) : Int) := by
+  have hdq : (0 : Rat) < (d : Rat) := by exact_mod_cast hd
+  have h1 : (((n / d : Nat) : Int) : Rat) ≤ (n : Rat) / (d : Rat) := by
+    rw [le_div_iff₀ hdq]
+    have := Nat.div_mul_le_self n d
+    exact_mod_cast this
+  have h2 : (n : Rat) / (d : Rat) < (((n / d : Nat) : Int) : Rat) + 1 := by
+    rw [div_lt_iff₀ hdq]
+    have hm := Nat.mod_lt n hd
+    have hdm := Nat.div_add_mod n d
+    have : n < (n / d + 1) * d := by
+      rw [Nat.add_mul, Nat.one_mul, Nat.mul_comm]; omega
+    exact_mod_cast this
+  have f1 := Rat.floor_le ((n : Rat) / (d : Rat))
+  have f2 := Rat.lt_floor_add_one ((n : Rat) / (d : Rat))
+  push_cast at f2
+  have a : (((n : Rat) / (d : Rat)).floor : Rat) < (((n / d : Nat) : Int) : Rat) + 1 := lt_of_le_of_lt f1 h2
+  have b : (((n / d : Nat) : Int) : Rat) < (((n : Rat) / (d : Rat)).floor : Rat) + 1 := lt_of_le_of_lt h1 f2
+  have a' : ((n : Rat) / (d : Rat)).floor < ((n / d : Nat) : Int) + 1 := by exact_mod_cast a
+  have b' : ((n / d : Nat) : Int) < ((n : Rat) / (d : Rat)).floor + 1 := by exact_mod_cast b
+  omega
+
+/-- **The judge's lower bound is the floor of the exact one**: with `f = fNum/fDen`, `0 < fDen`, `fNum ≤ fDen`,
+`backoffLower p k = ⌊base_k·(1 − f)⌋` for the same `base_k = wait·1.5^k` (or `wait`) as `backoff_exact` uses. -/
+theorem backoffLower_eq_floor (p : RetryPolicy) (k : Nat) (hd : 0 < p.fDen) (hf : p.fNum ≤ p.fDen) :
+    (backoffLower p k : Int) = (baseQ p k * (1 - (p.fNum : Rat) / (p.fDen : Rat))).floor := by
+  have hbd : 0 < baseDen p k := by
+    unfold baseDen; split
+    · positivity
+    · norm_num
+  have hden : 0 < sleepDen p k := Nat.mul_pos hbd hd
+  have hq : baseQ p k * (1 - (p.fNum : Rat) / (p.fDen : Rat)) =
+      ((sleepNum p k 0 : Nat) : Rat) / ((sleepDen p k : Nat) : Rat) := by
+    rw [baseQ_eq]
+    unfold sleepNum sleepDen
+    have hb : (baseDen p k : Rat) ≠ 0 := by exact_mod_cast (Nat.pos_iff_ne_zero.mp hbd)
+    have hfd : (p.fDen : Rat) ≠ 0 := by exact_mod_cast (Nat.pos_iff_ne_zero.mp hd)
+    push_cast [Nat.cast_sub hf]
+    field_simp
+    ring
+  rw [hq, floor_natCast_div _ _ hden]
+  rfl
 
 end EgVerif.Retry
